@@ -598,6 +598,8 @@ def stream_reuse(pipe, res, rng, tier):
             tryadd(pipe, res, lambda: CD.reuse_design('reg_dw', dict(qw=w, dw=dw)))
         for ew in ([1, 1], [1, 2], [2, 1]):
             tryadd(pipe, res, lambda: CD.reuse_design('reg_ew', dict(qw=w, ew=ew)))
+        for rw in ([1, 1], [1, 2], [3, 1]):
+            tryadd(pipe, res, lambda: CD.reuse_design('reg_rw', dict(qw=w, rw=rw)))
         for dew in ([(w, 1), (w, 1)], [(w, 1), (w + 1, 1)], [(w, 1), (w, 2)]):
             tryadd(pipe, res, lambda: CD.reuse_design('latch', dict(qw=w, dew=dew)))
         tryadd(pipe, res, lambda: CD.reuse_design('sign', dict(w=w, rw=[1, 1])))
